@@ -16,8 +16,106 @@ import (
 	sctypes "github.com/sunriselayer/sunrise/x/shareclass/types"
 	swaptypes "github.com/sunriselayer/sunrise/x/swap/types"
 
+	lpkeeper "github.com/sunriselayer/sunrise/x/liquiditypool/keeper"
+	swapkeeper "github.com/sunriselayer/sunrise/x/swap/keeper"
+
 	"verifharness/apph"
+	"verifharness/emit"
 )
+
+// NegativeBaselineNote is logged when the message-driven scenario below left an accumulator
+// position whose fee-growth baseline has a negative component in the store.
+const NegativeBaselineNote = "signed: negative fee-growth baseline reached by messages"
+
+// crossedTickScenario: a message history that produces SIGNED stored values.  A wide position,
+// an older position whose lower tick T lies below the price, swaps that push the price down
+// through T, then a new position [cur-a, T): its upper tick is old and was crossed downwards,
+// its lower tick is new, so the fee growth "inside" recorded as its baseline is negative in the
+// denom that paid fees while the price was above T.  Then trades both ways and a claim.
+func crossedTickScenario(h *apph.H, r *emit.Rand, note func(string, error)) {
+	lpSrv := lpkeeper.NewMsgServerImpl(h.App.LiquiditypoolKeeper)
+	swSrv := swapkeeper.NewMsgServerImpl(h.App.SwapKeeper)
+	base, quote := "uosmo", "uusdc"
+	var pool uint64
+	e := apph.Tx(h.Ctx(), func(ctx sdk.Context) error {
+		res, e := lpSrv.CreatePool(ctx, &lptypes.MsgCreatePool{Authority: h.Accts[0].Addr.String(), DenomBase: base, DenomQuote: quote,
+			FeeRate: "0.01", PriceRatio: "1.0001", BaseOffset: emit.Pick(r, "0.5", "0", "-0.5")})
+		if e == nil {
+			pool = res.Id
+		}
+		return e
+	})
+	note("signed: create pool for the crossed-tick scenario", e)
+	if e != nil {
+		return
+	}
+	position := func(who int, lo, hi int64, amt int64) (id uint64, err error) {
+		err = apph.Tx(h.Ctx(), func(ctx sdk.Context) error {
+			res, e := lpSrv.CreatePosition(ctx, &lptypes.MsgCreatePosition{Sender: h.Accts[who].Addr.String(), PoolId: pool, LowerTick: lo, UpperTick: hi,
+				TokenBase: sdk.NewCoin(base, sdkmath.NewInt(amt)), TokenQuote: sdk.NewCoin(quote, sdkmath.NewInt(amt)), MinAmountBase: sdkmath.ZeroInt(), MinAmountQuote: sdkmath.ZeroInt()})
+			if e == nil {
+				id = res.Id
+			}
+			return e
+		})
+		return
+	}
+	swap := func(din, dout string, amt int64) error {
+		return apph.Tx(h.Ctx(), func(ctx sdk.Context) error {
+			_, e := swSrv.SwapExactAmountIn(ctx, &swaptypes.MsgSwapExactAmountIn{Sender: h.Accts[3].Addr.String(), InterfaceProvider: "",
+				Route:    swaptypes.Route{DenomIn: din, DenomOut: dout, Strategy: &swaptypes.Route_Pool{Pool: &swaptypes.RoutePool{PoolId: pool}}},
+				AmountIn: sdkmath.NewInt(amt), MinAmountOut: sdkmath.OneInt()})
+			return e
+		})
+	}
+	tick := func() int64 {
+		p, _, _ := h.App.LiquiditypoolKeeper.GetPool(h.Ctx(), pool)
+		return p.CurrentTick
+	}
+	wide, e := position(0, -3000, 3000, 1_000_000_000)
+	note("signed: wide position", e)
+	if e != nil {
+		return
+	}
+	T := -int64(60 + r.Intn(120))
+	_, e = position(1, T, 300, 100_000_000)
+	note(fmt.Sprintf("signed: older position [%d,300]", T), e)
+	if e != nil {
+		return
+	}
+	for i := 0; i < 200 && tick() >= T; i++ {
+		if e := swap(base, quote, 3_000_000); e != nil {
+			note("signed: swap down", e)
+			return
+		}
+	}
+	cur := tick()
+	if cur >= T {
+		note("signed: price did not cross the tick", fmt.Errorf("tick %d >= %d", cur, T))
+		return
+	}
+	lower := cur - int64(10+r.Intn(150))
+	_, e = position(2, lower, T, 500_000_000)
+	note(fmt.Sprintf("signed: new position [%d,%d) below a crossed tick (price tick %d)", lower, T, cur), e)
+	if e != nil {
+		return
+	}
+	note("signed: trade up", swap(quote, base, 4_000_000))
+	note("signed: trade down", swap(base, quote, 4_000_000))
+	note("signed: claim on the wide position", apph.Tx(h.Ctx(), func(ctx sdk.Context) error {
+		_, e := lpSrv.ClaimRewards(ctx, &lptypes.MsgClaimRewards{Sender: h.Accts[0].Addr.String(), PositionIds: []uint64{wide}})
+		return e
+	}))
+	for _, ap := range h.App.LiquiditypoolKeeper.GetAllAccumulatorPositions(h.Ctx()) {
+		for _, c := range ap.AccumValuePerShare {
+			if c.Amount.IsNegative() {
+				note(NegativeBaselineNote, nil)
+				return
+			}
+		}
+	}
+	note("signed: no negative baseline in the store after the scenario", fmt.Errorf("scenario did not produce one"))
+}
 
 // degenerateMsgs sends the degenerate-but-valid messages the handlers may accept: a gauge vote
 // without pool weights, one with weight 0, a zero-amount undelegation.  Whatever a handler
@@ -75,8 +173,28 @@ func degenerateRecords(h *apph.H, ctx sdk.Context, note func(string, error)) {
 	note(tag("accumulator position with zero shares and no coins"), lp.SetAccumulatorPosition(ctx, lptypes.KeyFeePoolAccumulator(math.MaxUint64-1), sdk.NewDecCoins(), lptypes.KeyFeePositionAccumulator(math.MaxUint64), zeroDec, sdk.NewDecCoins()))
 	note(tag("accumulator position with empty names"), lp.SetAccumulatorPosition(ctx, "", nil, "", zeroDec, nil))
 
+	// signed and unordered values (raw literals: the sdk constructors would sort, merge or reject)
+	neg := func(s string) sdkmath.LegacyDec { return sdkmath.LegacyMustNewDecFromStr(s) }
+	signed := sdk.DecCoins{{Denom: "uusdc", Amount: neg("-0.000000000000000001")}, {Denom: "uatom", Amount: neg("-12345.678900000000000000")}}
+	unordered := sdk.DecCoins{{Denom: "uusdc", Amount: neg("2.5")}, {Denom: "uatom", Amount: neg("-1")}, {Denom: "uusdc", Amount: neg("-4.25")}, {Denom: "uatom", Amount: neg("0")}}
+	note(tag("accumulator with negative components"), lp.SetAccumulator(ctx, lptypes.AccumulatorObject{Name: lptypes.KeyFeePoolAccumulator(math.MaxUint64 - 2), AccumValue: signed, TotalShares: neg("-3").String()}))
+	note(tag("accumulator with an unsorted list, duplicate denoms, zero and negative entries"), lp.SetAccumulator(ctx, lptypes.AccumulatorObject{Name: lptypes.KeyFeePoolAccumulator(math.MaxUint64 - 3), AccumValue: unordered, TotalShares: zeroDec.String()}))
+	note(tag("accumulator position with a negative baseline and negative unclaimed rewards"), lp.SetAccumulatorPosition(ctx, lptypes.KeyFeePoolAccumulator(math.MaxUint64-2), signed, lptypes.KeyFeePositionAccumulator(math.MaxUint64-1), neg("1"), signed))
+	note(tag("accumulator position with unsorted duplicate-denom lists and negative shares"), lp.SetAccumulatorPosition(ctx, lptypes.KeyFeePoolAccumulator(math.MaxUint64-3), unordered, lptypes.KeyFeePositionAccumulator(math.MaxUint64-2), neg("-7.5"), unordered))
+	lp.SetTickInfo(ctx, lptypes.TickInfo{PoolId: math.MaxUint64 - 2, TickIndex: -1, LiquidityGross: neg("5").String(), LiquidityNet: neg("-5").String(), FeeGrowth: signed})
+	lp.SetTickInfo(ctx, lptypes.TickInfo{PoolId: math.MaxUint64 - 2, TickIndex: 1, LiquidityGross: neg("5").String(), LiquidityNet: neg("-5").String(), FeeGrowth: unordered})
+	note(tag("tick infos with negative net liquidity and signed / unsorted fee growth"), nil)
+	note(tag("pool with negative tick and negative-looking decimals"), lp.SetPool(ctx, lptypes.Pool{Id: math.MaxUint64 - 2, DenomBase: "uatom", DenomQuote: "uusdc", FeeRate: zeroDec.String(),
+		TickParams: lptypes.TickParams{PriceRatio: "1.000100000000000000", BaseOffset: neg("-0.5").String()}, CurrentTick: math.MinInt64, CurrentTickLiquidity: neg("-1").String(), CurrentSqrtPrice: zeroDec.String()}))
+	note(tag("position with negative liquidity"), lp.SetPosition(ctx, lptypes.Position{Id: math.MaxUint64 - 2, Address: mk("negative-liquidity").String(), PoolId: math.MaxUint64 - 2, LowerTick: 5, UpperTick: -5, Liquidity: neg("-9").String()}))
+
 	// liquidityincentive
 	li := h.App.LiquidityincentiveKeeper
+	note(tag("gauge with a negative count"), li.SetGauge(ctx, litypes.Gauge{PreviousEpochId: math.MaxUint64 - 1, PoolId: 1, Count: sdkmath.NewInt(-17)}))
+	note(tag("epoch whose gauges are unordered, duplicated and negative"), li.SetEpoch(ctx, litypes.Epoch{Id: math.MaxUint64 - 2, StartBlock: 9, EndBlock: 3, Gauges: []litypes.Gauge{
+		{PreviousEpochId: 7, PoolId: 9, Count: sdkmath.NewInt(-1)}, {PreviousEpochId: 7, PoolId: 2, Count: sdkmath.NewInt(5)}, {PreviousEpochId: 7, PoolId: 9, Count: sdkmath.ZeroInt()}}}))
+	note(tag("vote with unordered duplicate pools"), li.SetVote(ctx, litypes.Vote{Sender: mk("unordered-vote").String(), PoolWeights: []litypes.PoolWeight{
+		{PoolId: 9, Weight: "0.100000000000000000"}, {PoolId: 2, Weight: "0.200000000000000000"}, {PoolId: 9, Weight: "0.300000000000000000"}}}))
 	note(tag("epoch without gauges, blocks 0..0 (largest id)"), li.SetEpoch(ctx, litypes.Epoch{Id: math.MaxUint64}))
 	note(tag("epoch with an empty gauge list"), li.SetEpoch(ctx, litypes.Epoch{Id: math.MaxUint64 - 1, StartBlock: 5, EndBlock: 5, Gauges: []litypes.Gauge{}}))
 	note(tag("gauge with count 0"), li.SetGauge(ctx, litypes.Gauge{PreviousEpochId: math.MaxUint64, PoolId: math.MaxUint64, Count: sdkmath.ZeroInt()}))
@@ -85,17 +203,23 @@ func degenerateRecords(h *apph.H, ctx sdk.Context, note func(string, error)) {
 	note(tag("vote with an empty weight list"), li.SetVote(ctx, litypes.Vote{Sender: mk("empty-list-vote").String(), PoolWeights: []litypes.PoolWeight{}}))
 	note(tag("vote with weight 0"), li.SetVote(ctx, litypes.Vote{Sender: mk("zero-weight-vote").String(), PoolWeights: []litypes.PoolWeight{{PoolId: 0, Weight: "0.000000000000000000"}}}))
 
-	// swap
+	// swap, da
 	sw := h.App.SwapKeeper
+	da := h.App.DaKeeper
 	note(tag("incoming packet with a zero index, no data, zero fee"), sw.SetIncomingInFlightPacket(ctx, swaptypes.IncomingInFlightPacket{InterfaceFee: sdkmath.ZeroInt()}))
 	note(tag("incoming packet with empty acks"), sw.SetIncomingInFlightPacket(ctx, swaptypes.IncomingInFlightPacket{Index: swaptypes.PacketIndex{PortId: "transfer", ChannelId: "channel-0", Sequence: math.MaxUint64},
 		InterfaceFee: sdkmath.ZeroInt(), Ack: []byte{}, Change: &swaptypes.IncomingInFlightPacket_AckChange{AckChange: []byte{}}, Forward: &swaptypes.IncomingInFlightPacket_AckForward{AckForward: []byte{}}}))
 	note(tag("outgoing packet, all zero"), sw.SetOutgoingInFlightPacket(ctx, swaptypes.OutgoingInFlightPacket{}))
 	note(tag("outgoing packet with no retries left (largest sequence)"), sw.SetOutgoingInFlightPacket(ctx, swaptypes.OutgoingInFlightPacket{Index: swaptypes.PacketIndex{PortId: "transfer", ChannelId: "channel-0", Sequence: math.MaxUint64}, RetriesRemaining: 0}))
 
-	// da
-	da := h.App.DaKeeper
 	far := h.Time.Add(300000 * time.Second)
+	note(tag("incoming packet with a negative interface fee"), sw.SetIncomingInFlightPacket(ctx, swaptypes.IncomingInFlightPacket{Index: swaptypes.PacketIndex{PortId: "transfer", ChannelId: "channel-0", Sequence: math.MaxUint64 - 1}, InterfaceFee: sdkmath.NewInt(-5)}))
+	note(tag("outgoing packet with negative retries"), sw.SetOutgoingInFlightPacket(ctx, swaptypes.OutgoingInFlightPacket{Index: swaptypes.PacketIndex{PortId: "transfer", ChannelId: "channel-0", Sequence: math.MaxUint64 - 1}, RetriesRemaining: -1}))
+	note(tag("published data with unsorted / duplicate-denom collateral"), da.SetPublishedData(ctx, datypes.PublishedData{MetadataUri: "ipfs://unordered-collateral", Timestamp: h.Time.Add(300001 * time.Second), PublishedTimestamp: h.Time,
+		Status: datypes.Status_STATUS_CHALLENGING, Publisher: mk("publisher").String(), Challenger: mk("publisher").String(),
+		PublishDataCollateral:      sdk.Coins{{Denom: "uusdc", Amount: sdkmath.NewInt(3)}, {Denom: "urise", Amount: sdkmath.NewInt(2)}, {Denom: "uusdc", Amount: sdkmath.NewInt(1)}},
+		SubmitInvalidityCollateral: sdk.Coins{{Denom: "urise", Amount: sdkmath.ZeroInt()}}}))
+	note(tag("proof with negative, unordered and repeated indices"), da.SetProof(ctx, datypes.Proof{MetadataUri: "ipfs://unordered-collateral", Sender: mk("signed-proof").String(), Indices: []int64{5, -1, 5, 0}, Proofs: [][]byte{{}, nil, {1}, {}}}))
 	note(tag("published data without shards, collateral or parties"), da.SetPublishedData(ctx, datypes.PublishedData{MetadataUri: "ipfs://empty-item", Timestamp: far, PublishedTimestamp: far, Status: datypes.Status_STATUS_VERIFIED}))
 	note(tag("published data with unspecified status and empty uri"), da.SetPublishedData(ctx, datypes.PublishedData{MetadataUri: "", Timestamp: far, PublishedTimestamp: far}))
 	note(tag("proof with no indices and no proofs"), da.SetProof(ctx, datypes.Proof{MetadataUri: "ipfs://empty-item", Sender: mk("empty-proof").String()}))
